@@ -120,6 +120,25 @@ Definition spec_cas (st : store) (k : key) (prev : option (list N)) (nv : list N
   let cur := srv_get st k in
   if opt_bytes_eqb cur prev then (cur, true, st_put st k (mkEntry nv 0)) else (cur, false, st).
 
+(* Client.CompareAndSwap refuses to run unless SetAtomicForCAS(true) was called (None = that error).
+   The flag is also sent as for_cas with Put / Delete / BatchPut / BatchDelete; mocktikv ignores it,
+   so those calls do not depend on it and take no flag here. *)
+Definition client_cas (atomic : bool) (st : store) (k : key) (prev : option (list N)) (nv : list N)
+  : option cas_result :=
+  if atomic then Some (srv_cas st k prev nv) else None.
+
+(* concurrent CAS callers: the store executes each CAS under its mutex, one client call = one
+   atomic step, so a concurrent execution is an interleaving = a list of steps in commit order *)
+Definition cas_step := (list N * option (list N) * list N)%type.    (* key, expected, new value *)
+Fixpoint run_cas (st : store) (steps : list cas_step) : list (option (list N) * bool) * store :=
+  match steps with
+  | [] => ([], st)
+  | (k, prev, nv) :: r =>
+      let '(p, sw, st1) := srv_cas st k prev nv in
+      let '(rs, st2) := run_cas st1 r in
+      ((p, sw) :: rs, st2)
+  end.
+
 (* ---------------------------------------------------------------- client loops *)
 (* Scan: for len(keys) < limit && (len(endKey) == 0 || startKey < endKey) { RawScan(startKey,
    endKey, limit-len(keys)) on the region of startKey; startKey = loc.EndKey; if empty break } *)
@@ -205,30 +224,8 @@ Fixpoint group_keys (L : layout) (keys : list key) : list (key * list key) :=
   | k :: r => add_group (loc_lo L k) k (group_keys L r)
   end.
 
-(* one round = one grouping under a layout; `served g` tells whether the batch of the region
-   starting at g is answered or bounced with a region error; bounced batches are re-grouped
-   (sendBatchReq / sendBatchPut recursion) under the next round's layout. *)
-Definition round := (layout * (key -> bool))%type.
-Definition served_keys (r : round) (keys : list key) : list key :=
-  flat_map (fun g => if snd r (fst g) then snd g else []) (group_keys (fst r) keys).
-Definition bounced_keys (r : round) (keys : list key) : list key :=
-  flat_map (fun g => if snd r (fst g) then [] else snd g) (group_keys (fst r) keys).
-
-Fixpoint bget_rounds (st : store) (sched : list round) (keys : list key)
-  : option (list (list N * list N)) :=
-  match keys with
-  | [] => Some []
-  | _ =>
-      match sched with
-      | [] => None
-      | r :: sched' =>
-          match bget_rounds st sched' (bounced_keys r keys) with
-          | None => None
-          | Some rest => Some (srv_batch_get st (served_keys r keys) ++ rest)
-          end
-      end
-  end.
-(* BatchGet: keyToValue built from all pairs; values[i] = lookup (nil when not found) *)
+(* BatchGet: keyToValue built from all pairs; values[i] = lookup (nil when not found);
+   also the last-wins keyToValue / keyToTTL maps of BatchPut *)
 Fixpoint find_last {V} (ps : list (list N * V)) (k : key) : option V :=
   match ps with
   | [] => None
@@ -237,34 +234,129 @@ Fixpoint find_last {V} (ps : list (list N * V)) (k : key) : option V :=
                     | None => if bytes_eqb k k' then Some v else None
                     end
   end.
-Definition assemble (keys : list key) (ps : list (list N * list N)) : list (option (list N)) :=
-  map (fun k => find_last ps k) keys.
-Definition batch_get (st : store) (sched : list round) (keys : list key) : option (list (option (list N))) :=
-  option_map (assemble keys) (bget_rounds st sched keys).
 
-(* BatchPut: keyToValue / keyToTTL are last-wins maps; every batch carries map values *)
-Fixpoint bput_rounds (st : store) (sched : list round) (kvs : list (list N * entry)) (keys : list key)
-  : option store :=
+(* kvrpc.AppendKeyBatches / AppendBatches: the keys of one region group are cut into sub-batches;
+   `full acc` is tested BEFORE a key is added (count > 512 resp. size >= 16 KB), `w` is what a key
+   adds (1 resp. len(key) + len(value)); a sub-batch is flushed as it is when `full` holds *)
+Fixpoint chunk_aux (full : N -> bool) (w : key -> N) (ks cur : list key) (acc : N) : list (list key) :=
+  match ks with
+  | [] => if is_nil cur then [] else [rev cur]
+  | k :: r => if full acc then rev cur :: chunk_aux full w r [k] (w k)
+              else chunk_aux full w r (k :: cur) (acc + w k)
+  end.
+Definition chunk (full : N -> bool) (w : key -> N) (ks : list key) : list (list key) :=
+  chunk_aux full w ks [] 0.
+Definition raw_batch_pair_count : N := 512.
+Definition raw_batch_put_size : N := 16384.
+Definition key_chunks : list key -> list (list key) :=
+  chunk (fun c => raw_batch_pair_count <? c) (fun _ => 1).
+Definition pair_size (kvs : list (list N * entry)) (k : key) : N :=
+  N.of_nat (length k) + match find_last kvs k with Some e => N.of_nat (length (e_val e)) | None => 0 end.
+Definition put_chunks (kvs : list (list N * entry)) : list key -> list (list key) :=
+  chunk (fun sz => raw_batch_put_size <=? sz) (pair_size kvs).
+
+(* one round = one grouping under a layout, every region group cut into sub-batches; each
+   sub-batch (region start, index) is Served, Bounced with a region error (then re-grouped under
+   the next round's layout: sendBatchReq / sendBatchPut recursion) or Dropped (it failed for good
+   or was cancelled after another batch failed: it is NOT executed and the call returns an error) *)
+Inductive outcome := Served | Bounced | Dropped.
+Definition outcome_eqb (a b : outcome) : bool :=
+  match a, b with
+  | Served, Served | Bounced, Bounced | Dropped, Dropped => true
+  | _, _ => false
+  end.
+Definition round := (layout * (key -> nat -> outcome))%type.
+Definition all_served : key -> nat -> outcome := fun _ _ => Served.
+Fixpoint indexed {A} (i : nat) (l : list A) : list (nat * A) :=
+  match l with [] => [] | x :: r => (i, x) :: indexed (S i) r end.
+Definition sub_batches (ch : list key -> list (list key)) (L : layout) (keys : list key)
+  : list (key * nat * list key) :=
+  flat_map (fun g => map (fun ib => (fst g, fst ib, snd ib)) (indexed 0 (ch (snd g)))) (group_keys L keys).
+Definition batch_outcome (r : round) (b : key * nat * list key) : outcome := snd r (fst (fst b)) (snd (fst b)).
+Definition keys_of (o : outcome) (ch : list key -> list (list key)) (r : round) (keys : list key) : list key :=
+  flat_map (fun b => if outcome_eqb (batch_outcome r b) o then snd b else []) (sub_batches ch (fst r) keys).
+Definition any_dropped (ch : list key -> list (list key)) (r : round) (keys : list key) : bool :=
+  existsb (fun b => outcome_eqb (batch_outcome r b) Dropped) (sub_batches ch (fst r) keys).
+Notation served_keys := (keys_of Served).
+Notation bounced_keys := (keys_of Bounced).
+
+(* result of a batch call: None = ran out of rounds; Some (x, ok): ok = false when a batch was dropped
+   (the call returns an error; x is then the state reached / nothing for a read) *)
+Fixpoint bget_rounds (st : store) (sched : list round) (keys : list key)
+  : option (list (list N * list N) * bool) :=
   match keys with
-  | [] => Some st
+  | [] => Some ([], true)
   | _ =>
       match sched with
       | [] => None
       | r :: sched' =>
-          let pairs := flat_map (fun k => match find_last kvs k with Some e => [(k, e)] | None => [] end)
-                                (served_keys r keys) in
-          bput_rounds (srv_batch_put st pairs) sched' kvs (bounced_keys r keys)
+          if any_dropped key_chunks r keys then Some ([], false) else
+          match bget_rounds st sched' (bounced_keys key_chunks r keys) with
+          | None => None
+          | Some (rest, ok) => Some (srv_batch_get st (served_keys key_chunks r keys) ++ rest, ok)
+          end
       end
   end.
-Definition batch_put (st : store) (sched : list round) (kvs : list (list N * entry)) : option store :=
-  bput_rounds st sched kvs (map fst kvs).
+Definition assemble (keys : list key) (ps : list (list N * list N)) : list (option (list N)) :=
+  map (fun k => find_last ps k) keys.
+(* None = out of rounds; Some None = the call returned an error; Some (Some vs) = values *)
+Definition batch_get (st : store) (sched : list round) (keys : list key)
+  : option (option (list (option (list N)))) :=
+  match bget_rounds st sched keys with
+  | None => None
+  | Some (ps, true) => Some (Some (assemble keys ps))
+  | Some (_, false) => Some None
+  end.
 
-Fixpoint bdel_rounds (st : store) (sched : list round) (keys : list key) : option store :=
+(* BatchPut: keyToValue / keyToTTL are last-wins maps; every batch carries map values *)
+Definition round_pairs (kvs : list (list N * entry)) (ks : list key) : list (list N * entry) :=
+  flat_map (fun k => match find_last kvs k with Some e => [(k, e)] | None => [] end) ks.
+Fixpoint bput_rounds (st : store) (sched : list round) (kvs : list (list N * entry)) (keys : list key)
+  : option (store * bool) :=
   match keys with
-  | [] => Some st
+  | [] => Some (st, true)
   | _ =>
       match sched with
       | [] => None
-      | r :: sched' => bdel_rounds (srv_batch_delete st (served_keys r keys)) sched' (bounced_keys r keys)
+      | r :: sched' =>
+          let st1 := srv_batch_put st (round_pairs kvs (served_keys (put_chunks kvs) r keys)) in
+          match bput_rounds st1 sched' kvs (bounced_keys (put_chunks kvs) r keys) with
+          | None => None
+          | Some (st2, ok) => Some (st2, ok && negb (any_dropped (put_chunks kvs) r keys))
+          end
       end
   end.
+Definition batch_put (st : store) (sched : list round) (kvs : list (list N * entry)) : option (store * bool) :=
+  bput_rounds st sched kvs (map fst kvs).
+
+Fixpoint bdel_rounds (st : store) (sched : list round) (keys : list key) : option (store * bool) :=
+  match keys with
+  | [] => Some (st, true)
+  | _ =>
+      match sched with
+      | [] => None
+      | r :: sched' =>
+          match bdel_rounds (srv_batch_delete st (served_keys key_chunks r keys)) sched' (bounced_keys key_chunks r keys) with
+          | None => None
+          | Some (st2, ok) => Some (st2, ok && negb (any_dropped key_chunks r keys))
+          end
+      end
+  end.
+
+(* DeleteRange whose i-th request may fail for good (None in the schedule): the call returns an
+   error, the ranges of the earlier requests stay deleted *)
+Inductive dr_result :=
+| DrDone (st : store)
+| DrFailed (st : store) (cursor : list N)
+| DrFuel.
+Fixpoint drange_run (st : store) (Ls : list (option layout)) (cur e : key) : dr_result :=
+  if below cur e then
+    match Ls with
+    | [] => DrFuel
+    | None :: _ => DrFailed st cur
+    | Some L :: Ls' =>
+        let ae := cut_end (loc_hi L cur) e in
+        let st' := srv_delete_range st cur ae in
+        if is_nil ae then DrDone st' else drange_run st' Ls' ae e
+    end
+  else DrDone st.
